@@ -28,8 +28,11 @@ S = {
     "SET": "SET x = 1;",
     "TC": "CREATE TABLE t2 (c int); -- trailing note",
     "BC": "/* block note */",
+    # comments whose text is empty or blank: they are still comment items of the flat result
+    "EC": "CREATE TABLE t3 (d int); --",
+    "BB": "/* block\n\n   end */",
 }
-BUCKET = {"T": "tables", "T2": "tables", "TC": "tables", "TY": "types", "SQ": "sequences", "DM": "domains", "SC": "schemas",
+BUCKET = {"T": "tables", "T2": "tables", "TC": "tables", "EC": "tables", "TY": "types", "SQ": "sequences", "DM": "domains", "SC": "schemas",
           "DB": "databases", "TS": "tablespaces", "SET": "ddl_properties"}
 MARK = {"tables": "table_name", "types": "type_name", "sequences": "sequence_name", "domains": "domain_name",
         "schemas": "schema_name", "databases": "database_name", "tablespaces": "tablespace_name", "ddl_properties": "value"}
@@ -52,6 +55,14 @@ def gen_cases(tier):
             # the trailing SET defect (a last-line SET is dropped) affects flat and grouped alike: not excluded
             for m in (modes if n <= 3 else ["sql", "bigquery"]):
                 cases.append({"seq": list(seq), "mode": m})
+    # every script of the regression corpus, regrouped in every mode (the flat result is the reference; no expectation on its kinds)
+    from ..util import load_corpus
+    seen = set()
+    for rec in load_corpus():
+        if rec["ddl"] not in seen:
+            seen.add(rec["ddl"])
+            for m in (ALL_MODES if tier == "thorough" else ["sql", rec["run"].get("output_mode", "hql")]):
+                cases.append({"corpus": rec["ddl"], "mode": m})
     return cases
 
 
@@ -66,8 +77,12 @@ def kind_of(e):
     return None
 
 
+def _ddl(case):
+    return case["corpus"] if "corpus" in case else "\n".join(S[k] for k in case["seq"])
+
+
 def evaluate(case):
-    ddl = "\n".join(S[k] for k in case["seq"])
+    ddl = _ddl(case)
     flat = run_ddl(ddl, None, {"output_mode": case["mode"]})
     grp = run_ddl(ddl, None, {"output_mode": case["mode"], "group_by_type": True})
     diffs = []
@@ -97,6 +112,8 @@ def evaluate(case):
         for b in sorted(set(g) | set(exp)):
             if g.get(b) != exp.get(b):
                 diffs.append(diff("bucket " + b, "bucket-differs", short(exp.get(b, "<absent>")), short(g.get(b, "<absent>"))))
+    if "corpus" in case:
+        return {"diffs": diffs, "nontrivial": len(flat_ent) >= 2, "outcome": json.dumps(sorted((b, len(v)) for b, v in g.items()))}
     # the flat list itself must have one entity per entity statement, of the right kind, in order
     want = [BUCKET[k] for k in case["seq"] if k in BUCKET]
     if want and case["seq"][-1] == "SET":
@@ -115,9 +132,9 @@ def features(case):
 
 
 def describe(case):
-    return {"ddl": "\n".join(S[k] for k in case["seq"]), "output_mode": case["mode"]}
+    return {"ddl": _ddl(case)[:500], "output_mode": case["mode"]}
 
 
 def snippet(case):
-    ddl = "\n".join(S[k] for k in case["seq"])
+    ddl = _ddl(case)
     return _snip(ddl, None, {"output_mode": case["mode"]}) + "# compare with run(group_by_type=True)\n"
